@@ -29,20 +29,9 @@ type History struct {
 	// internal node ids: its next fresh node id is preset, so that the history runs with node ids around a
 	// boundary that would otherwise take millions of writes to reach
 	FirstNodeId uint64 `json:"firstNodeId,omitempty"`
-	// Rename: the history runs with these index property names instead of the generators' fixed ones (only
-	// the checks whose oracles are driven by the schema alone use it)
+	// Rename: the shard really runs with these index property names instead of the generators' fixed ones
+	// (drive.OpenNamed translates on the way in and out, so model and oracles keep the fixed names)
 	Rename Rename `json:"rename,omitempty"`
-}
-
-// Renamed returns the history as it runs: schema and documents under the names of h.Rename.
-func (h History) Renamed() History {
-	if len(h.Rename) == 0 {
-		return h
-	}
-	h.Schema = h.Rename.Schema(h.Schema)
-	h.Steps = h.Rename.Steps(h.Steps)
-	h.Rename = nil
-	return h
 }
 
 // NodeIdBoundaries are values around which the code under test changes its representation of node id
